@@ -17,7 +17,9 @@ def run(tier, seed, t0):
         if e["op"] == "dual":
             v.violation({"property": PID, "event": e, "what": "%s give different answers (%s vs %s) for A=%s B=%s" % (
                 e["calls"], e["r1"], e["r2"], json.dumps(e["A"])[:250], json.dumps(e["B"])[:250])})
-    laws = [e for e in events if e["op"] in ("law", "equiv")]
+    def single_child(e):   # a single-child collection against its child: C10's clause, judged there
+        return e["op"] == "equiv" and e["A2"][0] in ("MultiPoint", "MultiLineString", "MultiPolygon", "GeometryCollection") and e["A"][0] != e["A2"][0]
+    laws = [e for e in events if e["op"] in ("law", "equiv") and not single_child(e)]
     lp = os.path.join(out, "laws.ndjson")
     open(lp, "w").write("".join(json.dumps(e) + "\n" for e in laws))
     evs, mism, r = vlib.judge_trace("Trace_C09", lp)
